@@ -221,6 +221,8 @@ func scenarios(thorough bool) []*scenario {
 			r.Out = ""
 			return r
 		}},
+		customAgentScenario("fetch-custom-agent-same-fs", false, A, B),
+		customAgentScenario("fetch-custom-agent-cross-fs", true, A, B),
 		{name: "prune", build: func(w *gitx.World, srv *fakelfs.Server) {
 			repo := baseRepo(w, nil)
 			for i, d := range [][]byte{A, B, C} {
@@ -268,6 +270,33 @@ func scenarios(thorough bool) []*scenario {
 		)
 	}
 	return s
+}
+
+// customAgentScenario: `git lfs fetch` of two objects through a standalone custom transfer agent (props/C09/c09_agent.py)
+// that stages each download either inside the world (same file system: git-lfs renames it into place) or on tmpfs
+// (/dev/shm: the rename fails with EXDEV; at HEAD the transfer is then reported as failed and nothing is stored).
+func customAgentScenario(name string, crossFS bool, A, B []byte) *scenario {
+	return &scenario{name: name, build: func(w *gitx.World, srv *fakelfs.Server) {
+		repo := baseRepo(w, nil)
+		commitPointers(w, repo, map[string][]byte{"a.bin": A, "b.bin": B}, "ptrs")
+		srcDir := filepath.Join(refStoreDir(), "agent-src")
+		os.MkdirAll(srcDir, 0755)
+		for _, d := range [][]byte{A, B} {
+			os.WriteFile(filepath.Join(srcDir, gitx.Oid(d)), d, 0644)
+		}
+		w.MustGit(repo, "config", "lfs.standalonetransferagent", "c09agent")
+		w.MustGit(repo, "config", "lfs.customtransfer.c09agent.path", "python3")
+		w.MustGit(repo, "config", "lfs.customtransfer.c09agent.args", filepath.Join(os.Getenv("VERIF_DIR"), "props", "C09", "c09_agent.py"))
+		w.MustGit(repo, "config", "lfs.customtransfer.c09agent.concurrent", "false")
+	}, cmd: func(w *gitx.World, env []string) gitx.Res {
+		stage := filepath.Join(w.Root, "agent-stage")
+		if crossFS {
+			stage = filepath.Join(refStoreDir(), "agent-stage-"+filepath.Base(filepath.Dir(w.Root)))
+			defer os.RemoveAll(stage)
+		}
+		e := append([]string{"C09_AGENT_SRC=" + filepath.Join(refStoreDir(), "agent-src"), "C09_AGENT_STAGE=" + stage}, env...)
+		return w.RunIn(repoOf(w), nil, e, filepath.Join(w.BinDir, "git-lfs"), "fetch")
+	}}
 }
 
 var (
@@ -404,7 +433,7 @@ func TestVerifC09(t *testing.T) {
 	osxBin = os.Getenv("VERIF_GITLFS_OSX")
 	gitx.CmdTimeout = 120 * time.Second
 	scs := scenarios(true)
-	nq := 8
+	nq := 10
 	if !c.Thorough() {
 		scs = scs[:nq]
 	}
